@@ -120,8 +120,24 @@ def _rexpr(prog, fn, e, inners):
     if t == "glob":
         g = find(prog, e["n"])
         r = _ref(prog, mod, e["n"])
-        return {"int": r, "list": "sum(%s)" % r, "dict": "%s[\"k\"]" % r, "str": "len(%s)" % r,
-                "dictset": "sum(%s.values())" % r, "mixset": "len(%s)" % r, "tuplist": "(%s[0] + sum(%s[1]))" % (r, r)}[g["vtype"]]
+        val = {"int": r, "list": "sum(%s)" % r, "dict": "%s[\"k\"]" % r, "str": "len(%s)" % r,
+               "dictset": "sum(%s.values())" % r, "mixset": "len(%s)" % r, "tuplist": "(%s[0] + sum(%s[1]))" % (r, r)}[g["vtype"]]
+        # the reference may sit in a nested scope of the function (its text is part of the function all the same)
+        form = e.get("form")
+        if form == "lambda":
+            return "(lambda: %s)()" % val
+        if form == "inner":
+            nm = "_in%d" % len(inners)
+            inners.append("    def %s():\n        return %s\n" % (nm, val))
+            return "%s()" % nm
+        if form == "compr":
+            return "[%s for _verif_i in (0,)][0]" % val
+        if form == "shadowed" and r == rn(g):
+            # another nested function has a PARAMETER of the same name (a local there), next to the real global reference
+            nm = "_in%d" % len(inners)
+            inners.append("    def %s(%s):\n        return %s\n" % (nm, r, r))
+            return "(%s(0) + %s)" % (nm, val)
+        return val
     if t in ("add", "mul"):
         return "(%s %s %s)" % (_rexpr(prog, fn, e["a"], inners), "+" if t == "add" else "*", _rexpr(prog, fn, e["b"], inners))
     if t == "inset":
@@ -144,7 +160,16 @@ def _rexpr(prog, fn, e, inners):
             # the callee is a modifier clone (force_local()) of the referenced function; verif_rt.fl is the
             # identity for plain functions, so the un-memoized reference runs the same text
             return "verif_rt.fl(%s)(x - 1)" % _ref(prog, mod, e["f"])
-        return "%s(x - 1)" % _ref(prog, mod, e["f"])
+        ref = _ref(prog, mod, e["f"])
+        if e.get("form") == "lambda":
+            return "(lambda t: %s(t))(x - 1)" % ref
+        if e.get("form") == "inner":
+            nm = "_in%d" % len(inners)
+            inners.append("    def %s(t):\n        return %s(t)\n" % (nm, ref))
+            return "%s(x - 1)" % nm
+        if e.get("form") == "genexp":
+            return "sum(%s(t) for t in (x - 1,))" % ref
+        return "%s(x - 1)" % ref
     if t == "hidden":
         d = find(prog, e["f"])
         if e["via"] == "globals" and d["mod"] == mod:
@@ -515,7 +540,7 @@ def apply_edit(prog, edit, tag):
 # ------------------------------------------------------------------------------------------
 
 def program_strategy(max_fns=6, two_modules=True, allow_hidden=True, allow_explicit=True, allow_cluster=True,
-                     str_sets=True, allow_hidden_plain=False, allow_alias=True, explicit_f0=False, value_heavy=False, allow_fdef=False, allow_dictset=False, allow_init=False, allow_query=False, allow_tuplist=False, allow_declared=False, helper_heavy=False, allow_mut=False, allow_twins=False, allow_keyclash=False, allow_rename=False, allow_mixset=False):
+                     str_sets=True, allow_hidden_plain=False, allow_alias=True, explicit_f0=False, value_heavy=False, allow_fdef=False, allow_dictset=False, allow_init=False, allow_query=False, allow_tuplist=False, allow_declared=False, helper_heavy=False, allow_mut=False, allow_twins=False, allow_keyclash=False, allow_rename=False, allow_mixset=False, allow_nested_refs=False):
     from hypothesis import strategies as st
 
     small = st.integers(0, 9)
@@ -702,6 +727,17 @@ def program_strategy(max_fns=6, two_modules=True, allow_hidden=True, allow_expli
         ordered = [defs[i] for i in order]
         ordered.sort(key=lambda d: 1 if d["k"] in ("alias", "wrapper") else 0)
         out = {"pkg": "vpk", "modules": modules, "defs": fix_order(None, ordered)}
+        if allow_nested_refs and draw(st.booleans()):
+            # some references to variables and functions are made from a nested scope (lambda, nested def, comprehension /
+            # generator expression), or next to a nested function whose parameter has the same name
+            for d_ in out["defs"]:
+                if d_["k"] != "fn" or d_.get("lam"):
+                    continue
+                for e_ in exprs_of(d_):
+                    if e_["e"] == "glob" and draw(st.integers(0, 2)) == 0:
+                        e_["form"] = draw(st.sampled_from(["lambda", "inner", "compr", "shadowed"]))
+                    elif e_["e"] == "call" and not e_.get("form") and draw(st.integers(0, 2)) == 0:
+                        e_["form"] = draw(st.sampled_from(["lambda", "inner", "genexp"]))
         if allow_rename and draw(st.integers(0, 2)) == 0:
             # unusual but legal names: a variable / helper / memoized callee called like a builtin, or with a very long name
             cands = [d["name"] for d in out["defs"] if d["k"] in ("var", "fn") and d["name"] != "f0" and not d.get("rname")
@@ -764,6 +800,8 @@ def features(prog):
         f.add("tuple-holding-list")
     if any(d["k"] == "var" and d["vtype"] == "mixset" for d in prog["defs"]):
         f.add("mixed-type-set")
+    if any(e.get("form") in ("lambda", "inner", "compr", "shadowed", "genexp") for d in fns(prog) for e in exprs_of(d) if e["e"] in ("glob", "call")):
+        f.add("reference-from-nested-scope")
     if any(d["k"] in ("alias", "wrapper") for d in prog["defs"]):
         f.add("alias-or-wrapper")
     if any(d["k"] == "query" for d in prog["defs"]):
